@@ -286,6 +286,11 @@ func (w *Writer) AddStream(s *streams.Stream, streamID uint64) (bool, error) {
 	for pIndex, p := range s.Packets {
 		dir := s.PacketDirections[pIndex]
 		pmds := pcapmetadata.AllFromPacketMetadata(&p)
+		// the data of a packet put together from several captured packets is attributed to the first one listed
+		dataSize := uint64(0)
+		if dIndex, ok := packetToData[uint64(pIndex)]; ok {
+			dataSize = uint64(len(s.Data[dIndex].Bytes))
+		}
 		for _, pmd := range pmds {
 			flags := uint8(flagsPacketHasNext)
 			switch dir {
@@ -293,10 +298,6 @@ func (w *Writer) AddStream(s *streams.Stream, streamID uint64) (bool, error) {
 				flags |= flagsPacketDirectionClientToServer
 			case reassembly.TCPDirServerToClient:
 				flags |= flagsPacketDirectionServerToClient
-			}
-			dataSize := uint64(0)
-			if dIndex, ok := packetToData[uint64(pIndex)]; ok {
-				dataSize = uint64(len(s.Data[dIndex].Bytes))
 			}
 			for {
 				np := packet{
